@@ -478,5 +478,5 @@ Qed.
 (** timeout source (finite) *)
 Lemma timeout_source kw conf : timeout_ok kw conf (effective_timeout kw conf) = true.
 Proof.
-  destruct kw as [v|], conf as [w|]; cbn; rewrite ?Nat.eqb_refl; reflexivity.
+  destruct kw as [[v|]|], conf as [w|]; cbn; rewrite ?Nat.eqb_refl; reflexivity.
 Qed.
